@@ -178,7 +178,12 @@ class Pgm:
                 first += ' ' + arg_text(self.args)
         lines = [first]
         if self.stdin is not None:
-            lines.append('    -stdin ' + T[self.stdin][0])
+            src = T[self.stdin][0]
+            if self.trans is not None:
+                # TEXT-SOURCE itself may end with `-transformed-by`: an output transformation of the PROGRAM that
+                # follows an unparenthesized -stdin would be read as part of the TEXT-SOURCE
+                src = '( ' + src + ('\n    )' if src.endswith('EOF') else ' )')
+            lines.append('    -stdin ' + src)
         if self.trans is not None:
             lines.append('    -transformed-by ' + X[self.trans][0])
         s = '\n'.join(lines)
